@@ -382,7 +382,7 @@ def r6_resolve_cfg(text, fired):
 def r2_drop_logging(text, fired):
     while True:
         msk = mask(text)
-        m = re.search(r'\b(trace|debug|info|warn|error)!\s*\(', msk)
+        m = re.search(r'\b(trace|debug|info|warn|error)!\s*[\(\{]', msk)
         if not m:
             break
         ob = m.end() - 1
